@@ -52,6 +52,8 @@ var (
 	Ptr1, Ptr2       *S             = PI, nil
 	Func1, Func2     func() int     = fi, nil
 	Err1, Err2       error          = ErrI, nil
+	ErrN1, ErrN2     error          = (*TErr)(nil), nil // an interface variable whose pre-mock value is a TYPED nil
+	AnyN1, AnyN2     interface{}    = (*S)(nil), nil
 	Any1, Any2       interface{}    = 9, nil
 	Arr1, Arr2       [3]int         = [3]int{9, 9, 9}, [3]int{}
 	Chan1, Chan2     chan int       = CI, nil
@@ -97,6 +99,10 @@ func Val(typ, tok string) interface{} {
 		return map[string]interface{}{"i": ErrI, "z": nil, "a": ErrA, "b": ErrB}[tok]
 	case "any":
 		return map[string]interface{}{"i": 9, "z": nil, "a": "a", "b": S{2, "b"}}[tok]
+	case "errn":
+		return map[string]interface{}{"i": (*TErr)(nil), "z": nil, "a": (*UErr)(nil), "b": ErrB}[tok]
+	case "anyn":
+		return map[string]interface{}{"i": (*S)(nil), "z": nil, "a": map[string]int(nil), "b": []int(nil)}[tok]
 	case "arr":
 		return map[string]interface{}{"i": [3]int{9, 9, 9}, "z": [3]int{}, "a": [3]int{1, 0, 0}, "b": [3]int{2, 2, 0}}[tok]
 	case "chan":
@@ -166,6 +172,16 @@ func Ptr(typ string, n int) interface{} {
 			return &Any1
 		}
 		return &Any2
+	case "errn":
+		if f {
+			return &ErrN1
+		}
+		return &ErrN2
+	case "anyn":
+		if f {
+			return &AnyN1
+		}
+		return &AnyN2
 	case "arr":
 		if f {
 			return &Arr1
@@ -295,6 +311,16 @@ func Read(typ string, n int, ue bool) interface{} {
 			return Any1
 		}
 		return Any2
+	case "errn":
+		if f {
+			return ErrN1
+		}
+		return ErrN2
+	case "anyn":
+		if f {
+			return AnyN1
+		}
+		return AnyN2
 	case "arr":
 		if f {
 			return Arr1
@@ -324,8 +350,17 @@ func Name(typ string, n int) string {
 	return "github.com/tencent/goom/zzverif/corpus/vars." + base + string(rune('0'+n))
 }
 
+// TErr, UErr: error types used for typed nil values behind an interface variable.
+type TErr struct{}
+
+func (*TErr) Error() string { return "TErr" }
+
+type UErr struct{}
+
+func (*UErr) Error() string { return "UErr" }
+
 // Types lists the classes; UETypes those that also have an unexported twin.
-var Types = []string{"int", "str", "f64", "bool", "slice", "map", "struct", "ptr", "func", "err", "any", "arr", "chan", "u8"}
+var Types = []string{"int", "str", "f64", "bool", "slice", "map", "struct", "ptr", "func", "err", "any", "errn", "anyn", "arr", "chan", "u8"}
 var UETypes = []string{"int", "str", "f64", "slice", "map", "struct", "ptr", "func", "u8"}
 
 // Restore puts every variable of the zoo back to its initial contents.
@@ -341,6 +376,8 @@ func Restore() {
 	Func1, Func2 = fi, nil
 	Err1, Err2 = ErrI, nil
 	Any1, Any2 = 9, nil
+	ErrN1, ErrN2 = (*TErr)(nil), nil
+	AnyN1, AnyN2 = (*S)(nil), nil
 	Arr1, Arr2 = [3]int{9, 9, 9}, [3]int{}
 	Chan1, Chan2 = CI, nil
 	U81, U82 = 9, 0
